@@ -70,6 +70,10 @@ func isRunningMaxPhi(q *ssa.Phi, cand VMatch) (ssa.Value, bool) {
 }
 
 func runC19(p *Prog, r *Report) {
+	if want("C19.14") {
+		// Recover finds damaged blocks through the table iterator's error path (shared with C02.8)
+		ruleIndexedIterator(p, r, "C19.14")
+	}
 	if want("C19.13") {
 		// recovered tables enter level 0, newest last (shared with C06)
 		ruleRecoveredLevelZero(p, r, "C19.13")
